@@ -286,7 +286,9 @@ def check_callers(m, case_base):
     return viols
 
 
-REDUCTION_EXPRS = ['w("a")*a + w("b")', "2*a + len('a b')*b", 'a_1 + xa + a*1e5', 'a(k-1)', "[a, 'a']", 'a if a < b else "a"']
+REDUCTION_EXPRS = ['w("a")*a + w("b")', "2*a + len('a b')*b", 'a_1 + xa + a*1e5', 'a(k-1)', "[a, 'a']", 'a if a < b else "a"',
+                   # string literals holding the other quote character, blanks next to punctuation, doubled blanks
+                   'w("it\'s a , a") + a', "w('say \"a\" , a  b') * a", 'w("a - b, c") + w(\'a - b, c\') + a', "w('a  ,  a') + w(\"'\") + a + w(\" ' a , b\")"]
 
 
 def check_reduction_caller():
